@@ -1004,18 +1004,26 @@ inline void world::connection_event_activity()
                 const bool decodable = !ll_.has_encryption || c_.inflight.payload.empty()
                                     || ( pdu_enc == r_.rx_enc && ( !pdu_enc || ( c_.has_key && r_.key_set && c_.key == r_.enc_key ) ) );
                 if ( getenv( "STACK_TRACE_AIR" ) ) res_.note( "    c->p len %zu enc %d decodable %d buf %zu (radio rx_enc %d tx_enc %d key %d)", c_.inflight.payload.size(), pdu_enc, decodable, (std::size_t)buf.size, r_.rx_enc, r_.tx_enc, r_.key_set );
+                r_.front_rx_header[ 0 ] = static_cast< std::uint8_t >( c_.inflight.llid | ( c_.nesn ? 4 : 0 ) | ( c_.sn ? 8 : 0 ) | ( c_md ? 0x10 : 0 ) );
+                r_.front_rx_header[ 1 ] = static_cast< std::uint8_t >( c_.inflight.payload.size() );
                 if ( ( crc_error && first ) || !decodable )
                 {
                     if ( !decodable ) { res_.fault( "c2p_mic_failure" ); undecodable_rsp = true; }
-                    trans = r_.buf_next_transmit();
-                    evts.error_occured = true;
+                    if ( !decodable && r_.real_front && buf.size != 0 && fits )
+                    {
+                        // valid CRC, failed MIC: the front end has the (garbled) PDU in its buffer and decides what to do with it
+                        buf.buffer[ 0 ] = r_.front_rx_header[ 0 ]; buf.buffer[ 1 ] = r_.front_rx_header[ 1 ];
+                        for ( std::size_t i = 0; i != c_.inflight.payload.size(); ++i ) buf.buffer[ 2 + i ] = static_cast< std::uint8_t >( c_.inflight.payload[ i ] ^ 0xa5 );
+                        trans = r_.buf_mic_failed( buf );
+                    }
+                    else
+                        trans = r_.buf_next_transmit();
+                    evts.error_occured = crc_error || !r_.real_front;       // (the nRF52 front end does not report a failed MIC as an error of the event)
                 }
                 else if ( buf.size == 0 || !fits )
                 {
                     res_.probe( "receive_buffer_full" );
                     ++rx_full_streak_;
-                    r_.front_rx_header[ 0 ] = static_cast< std::uint8_t >( c_.inflight.llid | ( c_.nesn ? 4 : 0 ) | ( c_.sn ? 8 : 0 ) | ( c_md ? 0x10 : 0 ) );
-                    r_.front_rx_header[ 1 ] = static_cast< std::uint8_t >( c_.inflight.payload.size() );
                     trans = r_.buf_next_transmit();
                 }
                 else
